@@ -464,6 +464,65 @@ func checkFillStroke(r *fw.R, shapeIdx, rule, res int, w float64, view int) {
 	r.Outcome("fill-stroke-ok")
 }
 
+// low resolutions (below one pixel per millimetre) on a large canvas: millimetre and pixel
+// coordinates differ by more than a factor, so a comparison that mixes the two units shows.
+// A filled or stroked square of 24 mm at the nine positions of a 3x3 grid of a 100x100 mm canvas.
+func checkLowRes(r *fw.R, dpmm float64, gx, gy int, stroke bool) {
+	const LW, LH = 100.0, 100.0
+	x0, y0 := []float64{4, 38, 72}[gx], []float64{4, 38, 72}[gy]
+	d := oracle.ClosedData(pts(x0, y0, x0+24, y0, x0+24, y0+24, x0, y0+24))
+	style := canvas.DefaultStyle
+	col := color.RGBA{200, 30, 20, 255}
+	var region []oracle.Polyline
+	if stroke {
+		style.Fill = canvas.Paint{}
+		style.Stroke = canvas.Paint{Color: col}
+		style.StrokeWidth = 16
+		region = oracle.DenseData(cv.Path(d).Stroke(16, canvas.ButtCap, canvas.MiterJoin, canvas.PixelTolerance/dpmm).Data(), 8)
+	} else {
+		style.Fill = canvas.Paint{Color: col}
+		region = oracle.DenseData(d, 1)
+	}
+	ras := rasterizer.New(LW, LH, canvas.DPMM(dpmm), canvas.LinearColorSpace{})
+	ras.RenderPath(cv.Path(d), style, canvas.Identity)
+	ras.Close()
+	img := ras.Image.(*image.RGBA)
+	wantW, wantH := int(math.Floor(LW*dpmm+0.5)), int(math.Floor(LH*dpmm+0.5))
+	if img.Bounds().Dx() != wantW || img.Bounds().Dy() != wantH {
+		r.Violate("image-size", fmt.Sprintf("image is %dx%d, expected %dx%d", img.Bounds().Dx(), img.Bounds().Dy(), wantW, wantH))
+		return
+	}
+	px := 1 / dpmm
+	nIn, nOut := 0, 0
+	for j := 0; j < wantH; j++ {
+		for i := 0; i < wantW; i++ {
+			q := oracle.Pt{X: (float64(i) + 0.5) / dpmm, Y: LH - (float64(j)+0.5)/dpmm}
+			if oracle.Dist(region, q, true) <= px*1.1+1e-3 {
+				continue
+			}
+			got := img.RGBAAt(i, j)
+			if oracle.Winding(region, q) != 0 {
+				nIn++
+				if !(near(got.R, 200, 4) && near(got.G, 30, 4) && near(got.B, 20, 4) && near(got.A, 255, 4)) {
+					r.Violate("lowres-unpainted-inside", fmt.Sprintf("pixel (%d,%d) centre (%.3f,%.3f) mm is inside the region but has colour %v", i, j, q.X, q.Y, got))
+					return
+				}
+			} else {
+				nOut++
+				if got.R > 4 || got.G > 4 || got.B > 4 || got.A > 4 {
+					r.Violate("lowres-paints-outside", fmt.Sprintf("pixel (%d,%d) centre (%.3f,%.3f) mm is outside the region but has colour %v", i, j, q.X, q.Y, got))
+					return
+				}
+			}
+		}
+	}
+	if nIn > 0 && nOut > 0 {
+		r.NontrivialIdx()
+	}
+	r.Count("lowres_pixels_inside", int64(nIn))
+	r.Outcome("lowres-ok")
+}
+
 func families(tier string) []fw.Family {
 	nres := 2
 	if tier == "thorough" {
@@ -480,7 +539,18 @@ func families(tier string) []fw.Family {
 	fsViews := []int{0, 1}
 	fsWidths := []float64{0.8, 2, 3}
 	radFS := []int{len(shapes), 2, nres, len(fsWidths), len(fsViews)}
+	lowRes := []float64{0.25, 0.5, 0.75}
+	radL := []int{len(lowRes), 3, 3, 2}
 	return []fw.Family{
+		{Name: "low resolution: 100x100 mm canvas at {0.25,0.5,0.75} px/mm x 3x3 positions x {fill, stroke}", N: oracle.Prod(radL...),
+			Check: func(i int64, r *fw.R) {
+				g := oracle.Digits(i, radL...)
+				checkLowRes(r, lowRes[g[0]], g[1], g[2], g[3] == 1)
+			},
+			Desc: func(i int64) string {
+				g := oracle.Digits(i, radL...)
+				return fmt.Sprintf("%s of a 24 mm square at (%g,%g) on a 100x100 mm canvas at %g px/mm", []string{"fill", "stroke w=16"}[g[3]], []float64{4, 38, 72}[g[1]], []float64{4, 38, 72}[g[2]], lowRes[g[0]])
+			}},
 		{Name: "fill+stroke in one call: shapes x {NonZero, EvenOdd} x resolutions x widths x views", N: oracle.Prod(radFS...),
 			Check: func(i int64, r *fw.R) {
 				g := oracle.Digits(i, radFS...)
